@@ -31,7 +31,7 @@ import (
 // has used that much CPU. Normal batches need well under a second.
 
 const (
-	cpuBoundSec  = 20                // CPU seconds one child (batch of <= batchSize files, 3 calls each) may use
+	cpuBoundSec  = 30                // CPU seconds one child (batch of <= batchSize files, 3 calls each) may use
 	memBoundByte = 3 << 29           // heap+stacks the child may obtain from the OS
 	wallWatchdog = 300 * time.Second // generous: firing without the CPU bound being reached is inconclusive
 	batchSize    = 12
